@@ -13,6 +13,7 @@ import (
 func init() {
 	execs["c01.ser"] = execC01Ser
 	execs["c01.hist"] = execC01Hist
+	execs["c01.conc"] = execC01Conc
 	gens["C01"] = genC01
 }
 
@@ -149,6 +150,8 @@ func genC01(c *Ctx) {
 	}
 	// histories: cells that are written to after they were serialised: c01c.go
 	genC01Hist(c, r.Fork(0xc01b))
+	// several goroutines, each on its own cells (or reading one shared DAG): c01d.go
+	genC01Conc(c, r.Fork(0xc01c))
 	if c01st.skipped > 0 {
 		c.Fail("c01.ser", sx.Nat(c01st.skipped), "ser-timeout-skipped",
 			fmt.Sprintf("%d further inputs with an unfolded tree of at least %d cells were not run after %d serialisations had hung", c01st.skipped, c01st.skipFrom, c01st.hangs))
